@@ -32,12 +32,11 @@ def fTrunc (B : Nat) (dub : Int → Nat) (x : FBigM) : FBigM :=
     let shift := (-x.repr.exp).toNat
     ⟨FRepr.new B (shrDigits B x.repr.signif shift) 0, x.prec - shift⟩
 
-/-- `FBig::split_at_point_internal` (`exp < 0`): `(integral, fractional, fraction digits)`.
-    `fixed = false`: the shortcut for numbers known to be `< 1` returns `context.precision` as the
-    number of fraction digits; `fixed = true`: it returns `-exponent`. -/
-def splitAtPointInternal (fixed : Bool) (B : Nat) (dub : Int → Nat) (x : FBigM) : Int × Int × Nat :=
+/-- `FBig::split_at_point_internal` (`exp < 0`): `(integral, fractional, fraction digits)`; for a
+    number known to be `< 1` all digits are fractional and there are `-exponent` of them. -/
+def splitAtPointInternal (B : Nat) (dub : Int → Nat) (x : FBigM) : Int × Int × Nat :=
   if smallerThanOne dub x.repr then
-    (0, x.repr.signif, if fixed then (-x.repr.exp).toNat else x.prec)
+    (0, x.repr.signif, (-x.repr.exp).toNat)
   else
     let shift := (-x.repr.exp).toNat
     let hl := splitDigits B x.repr.signif shift
@@ -52,49 +51,46 @@ def fSplitAtPoint (B : Nat) (dub : Int → Nat) (x : FBigM) : FBigM × FBigM :=
     let hl := splitDigits B x.repr.signif shift
     (⟨FRepr.new B hl.1 0, x.prec - shift⟩, ⟨FRepr.new B hl.2 x.repr.exp, shift⟩)
 
-/-- `FBig::fract`.  As it is, the fraction is rebuilt from `split_at_point_internal`; on the
-    known-smaller-than-one path that is the number itself with its own precision.  The repair of
-    `split_at_point_internal` (third component `-exponent`) is accompanied by an early return of the
-    number itself on that path, so that `fract` keeps agreeing with `split_at_point`. -/
-def fFract (fixed : Bool) (B : Nat) (dub : Int → Nat) (x : FBigM) : FBigM :=
+/-- `FBig::fract` (a number known to be `< 1` is its own fractional part) -/
+def fFract (B : Nat) (dub : Int → Nat) (x : FBigM) : FBigM :=
   if x.repr.exp ≥ 0 then FBigM.zero
-  else if fixed ∧ smallerThanOne dub x.repr then x
+  else if smallerThanOne dub x.repr then x
   else
-    let s := splitAtPointInternal fixed B dub x
+    let s := splitAtPointInternal B dub x
     ⟨FRepr.new B s.2.1 x.repr.exp, s.2.2⟩
 
 /-- `FBig::ceil` -/
-def fCeil (fixed : Bool) (B : Nat) (c : Coarse) (dub : Int → Nat) (x : FBigM) : FBigM :=
+def fCeil (B : Nat) (c : Coarse) (dub : Int → Nat) (x : FBigM) : FBigM :=
   if x.repr.isZero ∨ x.repr.exp ≥ 0 then x
   else if smallerThanOne dub x.repr then (if x.repr.signif ≥ 0 then FBigM.one else FBigM.zero)
   else
-    let s := splitAtPointInternal fixed B dub x
+    let s := splitAtPointInternal B dub x
     let r := roundFract B .up c s.1 s.2.1 s.2.2
     ⟨FRepr.new B (s.1 + rInt r) 0, x.prec - s.2.2⟩
 
 /-- `FBig::floor` -/
-def fFloor (fixed : Bool) (B : Nat) (c : Coarse) (dub : Int → Nat) (x : FBigM) : FBigM :=
+def fFloor (B : Nat) (c : Coarse) (dub : Int → Nat) (x : FBigM) : FBigM :=
   if x.repr.exp ≥ 0 then x
   else if smallerThanOne dub x.repr then (if x.repr.signif ≥ 0 then FBigM.zero else FBigM.negOne)
   else
-    let s := splitAtPointInternal fixed B dub x
+    let s := splitAtPointInternal B dub x
     let r := roundFract B .down c s.1 s.2.1 s.2.2
     ⟨FRepr.new B (s.1 + rInt r) 0, x.prec - s.2.2⟩
 
 /-- `FBig::round` (ties away from zero) -/
-def fRound (fixed : Bool) (B : Nat) (c : Coarse) (dub : Int → Nat) (x : FBigM) : FBigM :=
+def fRound (B : Nat) (c : Coarse) (dub : Int → Nat) (x : FBigM) : FBigM :=
   if x.repr.exp ≥ 0 then x
   else if x.repr.exp + (dub x.repr.signif : Int) < -2 then FBigM.zero
   else
-    let s := splitAtPointInternal fixed B dub x
+    let s := splitAtPointInternal B dub x
     let r := roundFract B .halfAway c s.1 s.2.1 s.2.2
     ⟨FRepr.new B (s.1 + rInt r) 0, x.prec - s.2.2⟩
 
 /-- `FBig::to_int` (rounding mode of the type) -/
-def fToInt (fixed : Bool) (B : Nat) (m : Mode) (c : Coarse) (dub : Int → Nat) (x : FBigM) : Rounded Int :=
+def fToInt (B : Nat) (m : Mode) (c : Coarse) (dub : Int → Nat) (x : FBigM) : Rounded Int :=
   if x.repr.exp ≥ 0 then (x.repr.signif * ((B ^ x.repr.exp.toNat : Nat) : Int), none)
   else
-    let s := splitAtPointInternal fixed B dub x
+    let s := splitAtPointInternal B dub x
     let adj := roundFract B m c s.1 s.2.1 s.2.2
     (s.1 + rInt adj, some adj)
 
